@@ -516,6 +516,40 @@ theorem inv_finishLoop (cfg : Cfg) (isRead : Bool) (s0 : St) (l : Loop) (h0 : In
     rw [hR] at hy1
     exact ⟨y, hy1, by rw [h4 k, hy1]⟩
 
+/-- once the loop has stopped the remaining members are not treated -/
+theorem writeIter_foldl_stopped (cfg : Cfg) (v : Dict) (w : String → WRes Val) (l : Loop) (h : l.stop = true) :
+    ∀ ms : List String, ms.foldl (writeIter cfg v w) l = l := by
+  intro ms
+  induction ms with
+  | nil => rfl
+  | cons m ms ih => simp only [List.foldl_cons]; rw [show writeIter cfg v w l m = l by simp [writeIter, h]]; exact ih
+
+/-- the generated `write_<struct>` (repaired code) whose FIRST member refuses (`write_<m>` raises): the operation fails with
+that exception and the state is the one before - nothing stored, nothing announced, no pending flag touched -/
+theorem writeStructB_first_refused (cfg : Cfg) (m : String) (ms : List String) (hm : cfg.members = m :: ms) (v : Dict)
+    (w : String → WRes Val) (k : ExcKind) (s : St) (hv : wf cfg v = true) (hw : cfg.hasW m = true) (hf : w m = .fail k) :
+    writeStructB cfg v w s = failedExc (some k) s := by
+  have hl : v.lookup m = none → False := by
+    intro hn
+    have hk := (wf_iff cfg v).1 hv
+    rw [hm] at hk
+    cases v with
+    | nil => simp at hk
+    | cons e t =>
+      simp only [List.map_cons, List.cons.injEq] at hk
+      obtain ⟨e1, e2⟩ := e
+      simp only at hk
+      simp [List.lookup, hk.1] at hn
+  have h1 : writeIter cfg v w { st := s } m = { st := s, stop := true, exc := some k } := by
+    unfold writeIter
+    cases hx : v.lookup m with
+    | none => exact absurd hx (fun h => hl h)
+    | some req => simp [hw, hf]
+  unfold writeStructB
+  simp only [hv, Bool.not_true, Bool.false_eq_true, if_false, hm, List.foldl_cons]
+  rw [h1, writeIter_foldl_stopped cfg v w _ rfl]
+  simp [finishLoop, resyncs, hm]
+
 theorem inv_readStructB (cfg : Cfg) (r : String → RRes Val) (s : St) (h : Inv cfg s) (hnd : cfg.members.Nodup) :
     Inv cfg (readStructB cfg r s) := by
   unfold readStructB
